@@ -230,6 +230,18 @@ UNITS.append(Unit(ghost=True, cross_key=_key,
     call=run(False, 'Sheet1!Z99'), native_call=run(True, 'Sheet1!Z99')))
 
 
+# (d') asking for a name in another spelling (letter case) - whatever the answer, the model's tables stay as they are
+for _spelling in ('MY_NAME', 'My_Name', 'no_such_name'):
+    UNITS.append(Unit(ghost=True, cross_key=_key,
+        id=f'C05/evaluator.Evaluator.evaluate/names_table_unchanged[{_spelling}]', target='xlcalculator.evaluator:Evaluator.evaluate', prop='C05', inputs=[],
+        cases=[Case('evaluating by a name the model does not define in that spelling changes neither the defined names nor the cells of the model, '
+                    'and writes nothing', lambda: True,
+                    lambda out: out.kind == 'ret' and sorted(out.value['objs']['model'].defined_names) == ['my_name']
+                    and sorted(out.value['objs']['model'].cells) == sorted([F_ADDR, G_ADDR, K_ADDR]) and out.value['F_value'] == 'STALE-F'
+                    and out.value['K_value'] == 41 and frames_ok(out.value, None))],
+        call=run(False, _spelling), native_call=run(True, _spelling)))
+
+
 # (e) failure of the formula: the ghost stack is restored, nothing is stored, the message grows linearly
 def _fail_ok(out, cycle=False):
     s = out.value
@@ -649,3 +661,64 @@ for _fname in ('IF', 'SUM'):
         cases=[Case('a report that passes through a function call (lazy or eager) still grows by at most len(address) + len(formula) + 60 characters per level',
                     lambda i: True, fn_chain_ens)],
         call=fn_chain_call(False, _fname), native_call=fn_chain_call(True, _fname)))
+
+
+# ---- C06: a cycle report is a Python-level failure travelling up through the functions on its way; a function that evaluates an argument
+#      expression ITSELF (a parameter declared XlExpr) is the only place where it could be caught and turned into a value.  Generated from
+#      the real signatures of everything registered: whatever takes unevaluated expressions lets such a failure pass.
+def _lazy_functions():
+    import inspect
+    import typing
+    import xlcalculator                                              # noqa: F401
+    from xlcalculator.xlfunctions import xl, func_xltypes
+    out = []
+    for name, fn in sorted(xl.FUNCTIONS.items()):
+        try:
+            sig = inspect.signature(fn)
+        except (TypeError, ValueError):
+            continue
+        lazy = []
+        for p in sig.parameters.values():
+            a = p.annotation
+            inner = getattr(a, '__args__', ())
+            if a is func_xltypes.XlExpr or func_xltypes.XlExpr in inner:
+                lazy.append(p)
+        if lazy:
+            out.append((name, fn, sig, lazy))
+    return out
+
+
+def _failing_thunk_call(native, fn, sig, npos):
+    def call(it, f_):
+        t = T()
+        log = []
+
+        def failing():
+            log.append('evaluated')
+            e = RuntimeError('Cycle detected for Sheet1!A1:\n- Sheet1!A1')
+            raise e if native else RaiseEx(e)
+        args = [t.Expr(failing if native else ModelFn(lambda it_, *a: failing(), 'failing argument'))]
+        for _ in range(npos - 1):
+            args.append(t.Expr((lambda: 1) if native else ModelFn(lambda it_, *a: 1, 'argument')))
+        try:
+            res = fn(*args) if native else it.call(fn, args, {})
+        except RaiseEx as r:
+            return ('raised', type(r.exc).__name__, tuple(log))
+        except RuntimeError as ex:
+            return ('raised', type(ex).__name__, tuple(log))
+        return ('returned', repr(res), tuple(log))
+    if native:
+        return lambda f_: call(None, f_)
+    return call
+
+
+for _name, _fn, _sig, _lazy in _lazy_functions():
+    _params = list(_sig.parameters.values())
+    _n = 1 if _params[0].kind == _params[0].VAR_POSITIONAL else min(3, len([p for p in _params if p.kind in (p.POSITIONAL_ONLY, p.POSITIONAL_OR_KEYWORD)]))
+    UNITS.append(Unit(
+        id=f'C06/lazy_argument_failure_passes.{_name}', target=f'{getattr(_fn, "__wrapped__", _fn).__module__}:{getattr(_fn, "__wrapped__", _fn).__name__}',
+        prop='C06', inputs=[],
+        cases=[Case(f'{_name} evaluates argument expressions itself: a Python-level failure of that evaluation (such as the report of a cycle) is not '
+                    f'turned into a value but passes through', lambda: True,
+                    lambda out: out.kind == 'ret' and out.value[0] == 'raised' and out.value[1] == 'RuntimeError' and out.value[2] == ('evaluated',))],
+        call=_failing_thunk_call(False, _fn, _sig, _n), native_call=_failing_thunk_call(True, _fn, _sig, _n)))
